@@ -401,3 +401,154 @@ pub fn gen_case(rng: &mut Rng, lim: &GenLimits) -> Case {
     }
     c
 }
+
+// ---------------------------------------------------------------------------
+// Variants: related inputs for multi-call histories
+// ---------------------------------------------------------------------------
+
+pub const VARIANT_KINDS: &[&str] = &["mask", "periodic_flip", "jitter", "nudge_others", "truncate", "extend", "box", "permute"];
+
+fn clamp_into_box(c: &Case, p: &mut [f64; 3]) {
+    for a in 0..3 {
+        let lo = c.anchor[a];
+        let hi = c.anchor[a] + c.width[a];
+        if a < c.dim {
+            if !(p[a] >= lo) {
+                p[a] = lo;
+            }
+            if p[a] > hi {
+                p[a] = hi;
+            }
+            if c.periodic && p[a] >= hi {
+                p[a] = lo;
+            }
+        }
+    }
+}
+
+fn random_mask(rng: &mut Rng, n: usize) -> (Option<Vec<bool>>, &'static str) {
+    let kind = *rng.pick(MASKS);
+    let m = match kind {
+        "none" => None,
+        "all_true" => Some(vec![true; n]),
+        "all_false" => Some(vec![false; n]),
+        "single" => {
+            let mut m = vec![false; n];
+            if n > 0 {
+                m[rng.below(n as u64) as usize] = true;
+            }
+            Some(m)
+        }
+        _ => {
+            let p = rng.f64();
+            Some((0..n).map(|_| rng.chance(p)).collect())
+        }
+    };
+    (m, kind)
+}
+
+/// A valid input related to `base`: what a long-lived process typically calls
+/// the library with next (another mask, slightly moved generators, a few more
+/// or fewer generators, another box, the periodic flag flipped). Many generators
+/// keep their index and their bit-identical position, so state that wrongly
+/// survives between calls (caches keyed by index or position, scratch buffers)
+/// has something to be stale about.
+pub fn derive_variant(rng: &mut Rng, base: &Case) -> Case {
+    let mut c = base.clone();
+    let kind = *rng.pick(VARIANT_KINDS);
+    let n = c.gens.len();
+    match kind {
+        "mask" => {
+            let (m, _) = random_mask(rng, n);
+            c.mask = m;
+        }
+        "periodic_flip" => {
+            c.periodic = !c.periodic;
+            let cc = c.clone();
+            for g in c.gens.iter_mut() {
+                clamp_into_box(&cc, g);
+            }
+        }
+        "jitter" | "nudge_others" => {
+            // relative size of the displacement: from one ulp of the box to 1%
+            let rel = 10f64.powf(-16.0 + 14.0 * rng.f64());
+            let keep = if kind == "nudge_others" && n > 0 { rng.below(n as u64) as usize } else { usize::MAX };
+            let p = if kind == "nudge_others" { 1.0 } else { *rng.pick(&[0.02, 0.1, 0.5, 1.0]) };
+            let cc = c.clone();
+            for (i, g) in c.gens.iter_mut().enumerate() {
+                if i == keep || !rng.chance(p) {
+                    continue;
+                }
+                for a in 0..cc.dim {
+                    if rng.chance(0.7) {
+                        g[a] += rel * cc.width[a] * rng.sym() * 2.0;
+                    }
+                }
+                clamp_into_box(&cc, g);
+            }
+            if kind == "nudge_others" {
+                // typical "only this cell is of interest" follow-up call
+                if rng.chance(0.5) && keep < n {
+                    let mut m = vec![false; n];
+                    m[keep] = true;
+                    c.mask = Some(m);
+                }
+            }
+        }
+        "truncate" => {
+            if n > 1 {
+                let k = 1 + rng.below((n - 1).min(8) as u64) as usize;
+                c.gens.truncate(n - k);
+                if let Some(m) = &mut c.mask {
+                    m.truncate(n - k);
+                }
+            }
+        }
+        "extend" => {
+            let k = 1 + rng.below(8) as usize;
+            for _ in 0..k {
+                let mut p = [0.0; 3];
+                for a in 0..3 {
+                    p[a] = c.anchor[a] + rng.f64() * c.width[a];
+                }
+                for a in c.dim..3 {
+                    p[a] = base.gens.first().map_or(0.0, |g| g[a]);
+                }
+                let cc = c.clone();
+                clamp_into_box(&cc, &mut p);
+                c.gens.push(p);
+                if let Some(m) = &mut c.mask {
+                    m.push(rng.chance(0.5));
+                }
+            }
+        }
+        "box" => {
+            // a larger box around the same generators
+            for a in 0..c.dim {
+                match rng.below(3) {
+                    0 => c.width[a] *= 2.0,
+                    1 => {
+                        c.anchor[a] -= 0.5 * c.width[a];
+                        c.width[a] *= 1.5;
+                    }
+                    _ => {}
+                }
+            }
+        }
+        _ => {
+            // permute: same positions, other indices
+            let mut idx: Vec<usize> = (0..n).collect();
+            rng.shuffle(&mut idx);
+            c.gens = idx.iter().map(|&i| base.gens[i]).collect();
+            if let Some(m) = &base.mask {
+                c.mask = Some(idx.iter().map(|&i| m[i]).collect());
+            }
+        }
+    }
+    c.family = format!("{}+{}", base.family, kind);
+    c.dedup();
+    if c.gens.is_empty() {
+        return base.clone();
+    }
+    c
+}
